@@ -232,6 +232,7 @@ def make_contractions(basis_dict, atoms, coords, coord_types):
         )
 
     # make shells
+    coord_types = iter(coord_types)
     for icenter, (atom, coord) in enumerate(zip(atoms, coords)):
         for angmom, exps, coeffs in basis_dict[atom]:
             basis.append(
@@ -240,7 +241,7 @@ def make_contractions(basis_dict, atoms, coords, coord_types):
                     coord,
                     coeffs,
                     exps,
-                    coord_types.pop(0),
+                    next(coord_types),
                     icenter=icenter,
                 )
             )
